@@ -920,8 +920,12 @@ func (l *ledger) checkInfo(n *simNode) {
 	// latest configuration == newest configuration entry in log or snapshot
 	var newest uint64
 	var newestCfg string
+	scanned := true
 	for i := r.lastLogIndex; i > r.log.PrevIndex(); i-- {
 		e, ok := l.entryAt(n, i)
+		if !ok {
+			scanned = false
+		}
 		if ok && e.typ == entryConfig {
 			var c Config
 			if c.decode(e) == nil {
@@ -934,6 +938,12 @@ func (l *ledger) checkInfo(n *simNode) {
 		if want := l.newestConfigAtOrBelow(r.snaps.index); want != 0 && r.configs.Latest.Index < want {
 			l.violate("label", "membership-older-than-snapshot-index", fmt.Sprintf("node %d: its log holds no config entry, snapshot index is %d, latest config is %d {%s} but config %d {%s} was committed at or below the snapshot index", n.id, r.snaps.index, r.configs.Latest.Index, canonConfig(r.configs.Latest), want, l.configs[want]))
 		}
+	}
+	// the log holds no configuration entry at all: the configuration in force can only come from below the log
+	// (snapshot / compacted prefix), never from an entry that was truncated away (revertConfig falling back to a
+	// "committed" configuration that was in fact the removed entry)
+	if newest == 0 && scanned && r.configs.Latest.Index > r.log.PrevIndex() && r.configs.Latest.Index > r.snaps.index {
+		l.violate("config", "adopted-config-not-in-log", fmt.Sprintf("node %d operates on configuration %d {%s} but its log (%d..%d, snapshot %d) holds no configuration entry", n.id, r.configs.Latest.Index, canonConfig(r.configs.Latest), r.log.PrevIndex()+1, r.lastLogIndex, r.snaps.index))
 	}
 	if newest != 0 {
 		if r.configs.Latest.Index != newest || canonConfig(r.configs.Latest) != newestCfg {
